@@ -8,10 +8,12 @@ open Ft
 
 structure DState where
   hist : HistDrv.St := {}
+  sess : St := {}
 
 def stepLine (d : DState) (line : String) : DState × String :=
   match tokens line with
   | "H" :: rest => let (h, out) := HistDrv.step d.hist rest; ({ d with hist := h }, out)
+  | "S" :: rest => let (h, out) := SessDrv.step d.sess rest; ({ d with sess := h }, out)
   | _ => (d, "bad-op")
 
 partial def loop (hin : IO.FS.Stream) (hout : IO.FS.Stream) (d : DState) : IO Unit := do
